@@ -394,6 +394,9 @@ func Gen(run *vlib.Run, seed uint64, tier string) {
 		addImported(run, r, rec)
 	}
 
+	// (2c) CFF size sweep, cff.Read and Parser.Read behind failing sources
+	genSweep(run, tier)
+
 	// (3) the malformed stream: random table edits
 	r = root.Fork("random")
 	n := vlib.Count(tier, 60, 1500)
